@@ -1,10 +1,10 @@
 #!/bin/bash
 # tools/seedeval.sh <Cxx> <A|B|C|D> <check> [<check>...]
-# Applies seeded change /tmp/seed/<Cxx>/OUT/patch<A|B|C|D>.diff in the scratch worktree
-# /tmp/seed/<Cxx>/wt, runs the given checks' quick tier against that worktree
-# (VERIF_REPO redirection), reverts, and prints one line per check.
-# Evidence files are restored and replay files produced by the run are moved
-# to /tmp/seed/<Cxx>/eval_<letter>/ so that /verif stays as committed.
+# Applies the seeded change <Cxx><letter> (patch from $SEEDROOT/<Cxx>/OUT/patch<letter>.diff or
+# /verif/seeded/<Cxx><letter>/patch.diff) in a scratch worktree of /repo's HEAD, runs the given
+# checks' quick tier against that worktree (VERIF_REPO redirection), reverts, and prints one line
+# per check.  Replay and evidence files of these runs go to a scratch directory (VERIF_SCRATCH),
+# so runs against /repo itself are not disturbed.
 set -u
 root=${SEEDROOT:-/tmp/seed}
 prop=$1; letter=$2; shift 2
@@ -18,18 +18,14 @@ if [ ! -d "$wt" ]; then git -C /repo worktree add -q --detach "$wt" HEAD || exit
 git -C "$wt" checkout -q -- . || exit 2
 # evaluate on top of the current /repo HEAD (fix: commits made after the seed was written must be present)
 git -C "$wt" checkout -q --detach "$(git -C /repo rev-parse HEAD)" || exit 2
-git -C "$wt" apply "$patch" || { echo "cannot apply"; exit 2; }
+git -C "$wt" apply "$patch" || { echo "seed $prop$letter: cannot apply"; exit 2; }
 for chk in "$@"; do
-  before=$(ls replay/$chk 2>/dev/null | sort)
-  VERIF_REPO=$wt VERIF_REPO_DIR=$wt ./run.sh "$chk" quick > "$out/$chk.log" 2>&1
+  scratch=$out/scratch_$chk
+  rm -rf "$scratch"; mkdir -p "$scratch"
+  VERIF_SCRATCH=$scratch VERIF_REPO=$wt VERIF_REPO_DIR=$wt ./run.sh "$chk" quick > "$out/$chk.log" 2>&1
   code=$?
   nviol=$(grep -c '^VIOLATION' "$out/$chk.log")
   echo "seed $prop$letter check $chk: exit=$code violations=$nviol $(grep -m1 '^VIOLATION' "$out/$chk.log" | cut -c1-120)"
-  # move new replay files away
-  for f in $(ls replay/$chk 2>/dev/null); do
-    if ! echo "$before" | grep -qx "$f"; then mkdir -p "$out/replay_$chk"; mv "replay/$chk/$f" "$out/replay_$chk/"; fi
-  done
-  git checkout -q -- "evidence/$chk.json" 2>/dev/null
 done
 git -C "$wt" checkout -q -- .
 # remove the scratch worktree with its build output when asked to (SEED_CLEAN=1)
